@@ -250,7 +250,7 @@ func TestC17(t *testing.T) {
 				Vars:       true,
 				MaxConvs:   6,
 				// besides faults of single converters: packages that do not parse or type-check
-				FaultKinds: []string{"directive", "signature", "conversion", "unknown-field", "enum-key", "syntax-above", "syntax-below", "type-error"},
+				FaultKinds: []string{"directive", "signature", "conversion", "unknown-field", "enum-key", "syntax-above", "syntax-below", "type-error", "render"},
 			}
 			_ = dirHint
 			tree := gen.Layout(rt, o)
